@@ -214,32 +214,8 @@ def run(ctx, report: Report) -> None:
                      f'match_namespace: selector form {form} (map: p -> {U1}{", default -> " + DFLT if has_default else ""}) on '
                      f'an element in namespace {el_ns or "(none)"} gives {got}, the property prescribes {exp}')
 
-    # ---- R4 ------------------------------------------------------------------------------------------
     r4 = report.rule('C12-R4', 'implied universal selector: same guard at both sites', floor=2)
-    pmod = src.mod('css_parser')
-    sites = []
-    for q, f in pmod.functions.items():
-        for st in walk_no_nested(f):
-            if isinstance(st, ast.Assign) and unparse(st.targets[0]) == 'sel.tag' and isinstance(st.value, ast.Call) \
-                    and src.resolve_class_ref(pmod, st.value.func) == 'css_types.SelectorTag':
-                args = [inv.folder.try_ev('css_parser', a, default='?') for a in st.value.args]
-                guard = None
-                par = pmod.parents.get(st)
-                if isinstance(par, ast.If):
-                    guard = unparse(par.test)
-                if args and args[0] == '*':
-                    sites.append((q, st, args, guard))
-    for q, st, args, guard in sites:
-        ok = args == ['*', None] and guard == 'not sel.tag and (not is_pseudo)'
-        r4.instance({'site': f'css_parser.{q}', 'tag': args, 'guard': guard, 'ok': ok}, key=q)
-        r4.obligation(ok)
-        if not ok:
-            r4.violation(f'css_parser.{q} implied universal', pmod.where(st),
-                         f'{q} adds the implied universal selector {args} under the guard `{guard}`; it must be ("*", None) '
-                         f'under `not sel.tag and not is_pseudo` at both sites, otherwise alternatives inside pseudo-classes pick '
-                         f'up the default namespace (or top-level ones do not)')
-    if len(sites) < 2:
-        raise AnalysisError('fewer than two implied-universal sites found')
+    implied_universal_rule(ctx, r4)
 
     # ---- R5 ------------------------------------------------------------------------------------------
     r5 = report.rule('C12-R5', 'the prefix map is an immutable copy', floor=2)
@@ -269,3 +245,34 @@ def run(ctx, report: Report) -> None:
                      f'Namespaces is not an immutable mapping (base ok: {ok}, mutators: {muts})')
     if not stores:
         raise AnalysisError('ImmutableDict.__init__: store to self._d not found')
+
+
+def implied_universal_rule(ctx, r4):
+    """Both sites that add the implied universal selector use the same guard (shared with C05)."""
+    src, inv = ctx.src, ctx.consts
+    # ---- R4 ------------------------------------------------------------------------------------------
+    pmod = src.mod('css_parser')
+    sites = []
+    for q, f in pmod.functions.items():
+        for st in walk_no_nested(f):
+            if isinstance(st, ast.Assign) and unparse(st.targets[0]) == 'sel.tag' and isinstance(st.value, ast.Call) \
+                    and src.resolve_class_ref(pmod, st.value.func) == 'css_types.SelectorTag':
+                args = [inv.folder.try_ev('css_parser', a, default='?') for a in st.value.args]
+                guard = None
+                par = pmod.parents.get(st)
+                if isinstance(par, ast.If):
+                    guard = unparse(par.test)
+                if args and args[0] == '*':
+                    sites.append((q, st, args, guard))
+    for q, st, args, guard in sites:
+        ok = args == ['*', None] and guard == 'not sel.tag and (not is_pseudo)'
+        r4.instance({'site': f'css_parser.{q}', 'tag': args, 'guard': guard, 'ok': ok}, key=q)
+        r4.obligation(ok)
+        if not ok:
+            r4.violation(f'css_parser.{q} implied universal', pmod.where(st),
+                         f'{q} adds the implied universal selector {args} under the guard `{guard}`; it must be ("*", None) '
+                         f'under `not sel.tag and not is_pseudo` at both sites, otherwise alternatives inside pseudo-classes pick '
+                         f'up the default namespace (or top-level ones do not)')
+    if len(sites) < 2:
+        raise AnalysisError('fewer than two implied-universal sites found')
+
